@@ -339,21 +339,8 @@ func (g *Generator) generateBindingFile(file *protogen.File) error {
 	gf.P()
 	gf.P("toBind := new(Req)")
 	gf.P()
-	gf.P("// Bind path parameters")
-	gf.P("if msg, ok := any(toBind).(proto.Message); ok {")
-	gf.P("if err := bindPathParams(r, msg, pathParams); err != nil {")
-	gf.P("writeErrorWithHandler(w, r, err, errorHandler)")
-	gf.P("return")
-	gf.P("}")
-	gf.P()
-	gf.P("// Bind query parameters")
-	gf.P("if err := bindQueryParams(r, msg, queryParams); err != nil {")
-	gf.P("writeErrorWithHandler(w, r, err, errorHandler)")
-	gf.P("return")
-	gf.P("}")
-	gf.P("}")
-	gf.P()
-	gf.P("// Bind body only for POST, PUT, PATCH methods")
+	gf.P("// Bind body only for POST, PUT, PATCH methods. The body is bound first because decoding")
+	gf.P("// resets the message: path and query parameters are applied on top of it afterwards.")
 	gf.P(`if httpMethod == "POST" || httpMethod == "PUT" || httpMethod == "PATCH" {`)
 	gf.P("err := bindDataBasedOnContentType(r, toBind)")
 	gf.P("if err != nil {")
@@ -367,6 +354,20 @@ func (g *Generator) generateBindingFile(file *protogen.File) error {
 	gf.P("},")
 	gf.P("}")
 	gf.P("writeErrorWithHandler(w, r, validationErr, errorHandler)")
+	gf.P("return")
+	gf.P("}")
+	gf.P("}")
+	gf.P()
+	gf.P("// Bind path parameters")
+	gf.P("if msg, ok := any(toBind).(proto.Message); ok {")
+	gf.P("if err := bindPathParams(r, msg, pathParams); err != nil {")
+	gf.P("writeErrorWithHandler(w, r, err, errorHandler)")
+	gf.P("return")
+	gf.P("}")
+	gf.P()
+	gf.P("// Bind query parameters")
+	gf.P("if err := bindQueryParams(r, msg, queryParams); err != nil {")
+	gf.P("writeErrorWithHandler(w, r, err, errorHandler)")
 	gf.P("return")
 	gf.P("}")
 	gf.P("}")
